@@ -220,18 +220,27 @@ func (ps *parser) typ() string {
 func (ps *parser) expr() Expr {
 	if ps.isId("forall") || ps.isId("exists") {
 		fa := ps.next().s == "forall"
-		var names []string
+		var vars []Param
 		for {
-			t := ps.next()
-			if t.kind != "id" {
-				ps.fail("expected bound variable, got %q", t.s)
+			var names []string
+			for {
+				t := ps.next()
+				if t.kind != "id" {
+					ps.fail("expected bound variable, got %q", t.s)
+				}
+				names = append(names, t.s)
+				if !ps.accept(",") {
+					break
+				}
 			}
-			names = append(names, t.s)
+			ty := ps.typ()
+			for _, n := range names {
+				vars = append(vars, Param{n, ty})
+			}
 			if !ps.accept(",") {
 				break
 			}
 		}
-		ty := ps.typ()
 		ps.expect("::")
 		var pats [][]Expr
 		for ps.isOp("{") {
@@ -247,10 +256,6 @@ func (ps *parser) expr() Expr {
 			pats = append(pats, pat)
 		}
 		body := ps.expr()
-		var vars []Param
-		for _, n := range names {
-			vars = append(vars, Param{n, ty})
-		}
 		return &EQuant{Forall: fa, Vars: vars, Body: body, Pats: pats}
 	}
 	return ps.iff()
@@ -499,6 +504,7 @@ type FuncContract struct {
 	Trusted  bool
 	Inline   bool
 	Reads    []ReadClause
+	Fuel     int
 	Ghost    []string
 	Props    map[string]bool // for pinned blocks
 	Classes  []string
@@ -527,7 +533,7 @@ var clauseKeywords = map[string]bool{
 	"func": true, "cases": true, "requires": true, "ensures": true, "modifies": true,
 	"panics": true, "pure": true, "loop": true, "invariant": true, "decreases": true,
 	"assert": true, "use": true, "let": true, "mode": true, "trusted": true, "assumes": true,
-	"classes": true, "property": true, "inline": true, "coarse": true, "assume": true, "reads": true, "wraps": true,
+	"classes": true, "property": true, "inline": true, "coarse": true, "assume": true, "reads": true, "wraps": true, "fuel": true,
 }
 
 type rawLine struct {
@@ -634,6 +640,8 @@ func parseContractLines(lines []rawLine, pkg string) ([]*FuncContract, error) {
 					cur.Modifies = append(cur.Modifies, strings.TrimSpace(x))
 				}
 			}
+		case "fuel":
+			fmt.Sscanf(rest, "%d", &cur.Fuel)
 		case "wraps":
 			cur.Modifies = append(cur.Modifies, "wraps:"+rest)
 		case "reads":
@@ -730,6 +738,10 @@ type SpecFunc struct {
 	Axioms  []Clause // extra axioms attached ("axiom name: expr")
 	NoPat   bool
 	Uninter bool
+	Unfold  string // inline the body when this parameter is a small literal at the call site
+	Special string // generate a specialised copy when this parameter is a literal at the call site
+	Fixed   map[string]Term
+	Base    string
 }
 
 type Lemma struct {
@@ -740,6 +752,7 @@ type Lemma struct {
 	Induction string
 	Trusted   string // non-empty: imported (e.g. from Lean) rather than proved here
 	Uses      []Clause
+	Fuel      int
 }
 
 type SpecDB struct {
@@ -869,6 +882,13 @@ func parseSpecItem(text, file string, line int, db *SpecDB) (err error) {
 		params := parseParams(ps)
 		ret := ps.typ()
 		sf := &SpecFunc{Name: name, Params: params, Ret: ret, Src: text}
+		for ps.isId("unfold") || ps.isId("specialize") {
+			if ps.next().s == "unfold" {
+				sf.Unfold = ps.next().s
+			} else {
+				sf.Special = ps.next().s
+			}
+		}
 		if kw == "spec" {
 			e, err := parseExpr(body)
 			if err != nil {
@@ -933,6 +953,8 @@ func parseSpecItem(text, file string, line int, db *SpecDB) (err error) {
 				} else {
 					lm.Uses = append(lm.Uses, c)
 				}
+			case "fuel":
+				fmt.Sscanf(r2, "%d", &lm.Fuel)
 			case "induction":
 				lm.Induction = r2
 			case "trusted":
@@ -947,7 +969,7 @@ func parseSpecItem(text, file string, line int, db *SpecDB) (err error) {
 }
 
 func joinLemmaClauses(lines []rawLine) []rawLine {
-	kws := map[string]bool{"requires": true, "ensures": true, "induction": true, "trusted": true, "use": true}
+	kws := map[string]bool{"requires": true, "ensures": true, "induction": true, "trusted": true, "use": true, "fuel": true}
 	var out []rawLine
 	for _, l := range lines {
 		t := strings.TrimSpace(l.text)
